@@ -2557,6 +2557,9 @@ class Executor(object):
                             d1 = to_int(self.ev1(sp, self.reg.parse_spec(dec)))
                             self.oblige(s3, z3.And(d0 >= 0, d1 < d0), '%s.decreases' % tag, 'loop-decreases', where)
                     elif k3 == BREAK:
+                        if linv.get('no_early_exit'):
+                            self.oblige(s3, z3.BoolVal(False), '%s.body.no_early_break' % tag, 'trace', where,
+                                        {'clause': 'the loop visits every element: no break out of the loop (%s)' % linv['no_early_exit']})
                         res.append((s3, (NEXT, None)))
                     else:
                         if k3 == RETURN and linv.get('no_early_exit'):
